@@ -16,9 +16,9 @@ ROOT = cf.ROOT
 
 # which suites decide which property, per tier
 PLAN = {
-    "C01": {"quick": ["struct3", "struct4s", "struct5s", "struct3z", "struct3p", "seg13z", "prims3", "primseg", "seg6s", "struct3k"],
+    "C01": {"quick": ["struct3", "struct4s", "struct5s", "struct3z", "struct3p", "seg13z", "prims3", "primseg", "seg6s", "struct3k", "feat333z"],
             "thorough": ["struct3", "struct4s", "struct5s", "struct3c", "struct3z", "struct3p", "struct4", "seg13", "seg13z", "seg22", "seg3d", "feat13",
-                         "prims3", "primseg", "struct3k", "struct3w"]},
+                         "prims3", "primseg", "struct3k", "feat333z", "struct3w"]},
     "C03": {"quick": ["struct3", "struct4s", "struct5s", "struct4n0", "struct3w"], "thorough": ["struct3", "struct4s", "struct5s", "struct4", "seg13", "struct4n0", "struct3k", "struct3w"]},
     "C04": {"quick": ["struct3", "struct4s", "struct5s", "struct4n0", "struct3zf", "struct3zc", "struct3k"], "thorough": ["struct3", "struct4s", "struct5s", "struct4", "seg13", "struct4n0", "struct3zf", "struct3zc", "struct3k", "struct3w"]},
     "C05": {"quick": ["struct3", "struct4s", "struct5s", "struct4n0", "struct3zf", "struct3zc"], "thorough": ["struct3", "struct4s", "struct5s", "struct4", "seg13", "struct4n0", "struct3zf", "struct3zc", "struct3k", "struct3w"]},
